@@ -48,8 +48,20 @@ class Unserializable:
     """an object the JSON encoder cannot serialize"""
 
 
-def build(spec: dict, storage):
-    """Real qupulse template for a spec. 'reuse' nodes are the objects held by `storage`."""
+def build(spec: dict, storage, memo=None):
+    """Real qupulse template for a spec. 'reuse' nodes are the objects held by `storage`; specs with the same
+    'oid' are one Python object (a sub-template shared by several parents)."""
+    memo = {} if memo is None else memo
+    oid = spec.get('oid')
+    if oid is not None and oid in memo:
+        return memo[oid]
+    pt = _build(spec, storage, memo)
+    if oid is not None:
+        memo[oid] = pt
+    return pt
+
+
+def _build(spec: dict, storage, memo):
     from qupulse.pulses import TablePT, SequencePT, RepetitionPT, MappingPT
     k, ident = spec['k'], spec.get('id')
     if k == 'reuse':
@@ -63,7 +75,7 @@ def build(spec: dict, storage):
             data['poison'] = Unserializable()
             pt.get_serialization_data = lambda *a, _d=data, **kw: dict(_d)
         return pt
-    children = [build(c, storage) for c in spec['c']]
+    children = [build(c, storage, memo) for c in spec['c']]
     if k == 'seq':
         return SequencePT(*children, identifier=ident, registry=dict())
     if k == 'rep':
@@ -572,12 +584,13 @@ def canon_impl(ab: Abstraction, view):
 def node_sexp(ab: Abstraction, spec: dict, ref_content: dict, pre: dict):
     """Lean `Node` of a spec: (n id tok serializable reused (children))"""
     k, ident = spec['k'], spec.get('id')
+    oid = spec.get('oid', 0)
     if k == 'reuse':
-        return ['n', ab.ident(ident), ab.token(pre[ident]), True, True, []]
+        return ['n', ab.ident(ident), oid, ab.token(pre[ident]), True, True, []]
     tok = 0
     if ident is not None and ident in ref_content:
         tok = ab.token(ref_content[ident])
-    return ['n', '-' if ident is None else ab.ident(ident), tok, k != 'bad', False,
+    return ['n', '-' if ident is None else ab.ident(ident), oid, tok, k != 'bad', False,
             [node_sexp(ab, c, ref_content, pre) for c in spec.get('c', ())]]
 
 
@@ -610,6 +623,17 @@ def gen_tree(rng, new_id, reusable: list, depth: int, p_named=0.6, allow_bad=Fal
     return spec
 
 
+def assign_oids(spec: dict, counter=None):
+    """give every spec dict an object identity; a dict that occurs twice keeps one identity"""
+    counter = [0] if counter is None else counter
+    if 'oid' not in spec:
+        counter[0] += 1
+        spec['oid'] = counter[0]
+        for c in spec.get('c', ()):
+            assign_oids(c, counter)
+    return spec
+
+
 def dependents(content: dict, ident: str) -> set:
     """identifiers whose loading passes through `ident` (including itself)"""
     refs = {i: set(json_refs(s) or ()) for i, s in content.items()}
@@ -639,6 +663,7 @@ def gen_case(rng, index: int) -> dict:
             continue
         if t.get('id') is None:
             t['id'] = new_id()
+        assign_oids(t)
         pre_specs.append(t)
         stored = sorted(reference_content(pre_specs))
     content = reference_content(pre_specs) if pre_specs else {}
@@ -676,6 +701,22 @@ def gen_case(rng, index: int) -> dict:
         elif sub < 0.55:
             tree = {'k': 'seq', 'id': new_id(), 'v': 0,
                     'c': [{'k': 'table', 'id': new_id(), 'v': 2}, tree, {'k': 'bad', 'id': None, 'v': 3}]}
+        elif sub < 0.8:
+            # two different objects with one identifier inside the tree (the later one with a new named child),
+            # a sub-template carrying the identifier of the stored template, a template nested in itself
+            dup = new_id()
+            first = {'k': 'table', 'id': dup, 'v': rng.randrange(100)}
+            second = {'k': 'seq', 'id': dup, 'v': 0, 'c': [{'k': 'table', 'id': new_id(), 'v': rng.randrange(100)}]}
+            shape = rng.randrange(4)
+            if shape == 0:
+                tree = {'k': 'seq', 'id': new_id(), 'v': 0, 'c': [first, second, tree]}
+            elif shape == 1:
+                tree = {'k': 'seq', 'id': new_id(), 'v': 0, 'c': [tree, second, first]}
+            elif shape == 2:
+                tree = {'k': 'seq', 'id': dup, 'v': 0, 'c': [{'k': 'table', 'id': new_id(), 'v': 4}, first]}
+            else:
+                tree = {'k': 'seq', 'id': new_id(), 'v': 0,
+                        'c': [{'k': 'rep', 'id': dup, 'v': 1, 'c': [{'k': 'seq', 'id': None, 'v': 0, 'c': [first]}]}]}
         op = rng.choice(['setitem', 'overwrite'])
         ident = tree['id']
         if sub > 0.9:
@@ -703,6 +744,7 @@ def gen_case(rng, index: int) -> dict:
         case['cached'] = []          # the cache of a PulseStorage is not maintained by direct backend calls
     ids = set(stored)
     if 'tree' in case['txn']:
+        assign_oids(case['txn']['tree'])
         ids |= set(spec_ids(case['txn']['tree']))
     if 'id' in case['txn']:
         ids.add(case['txn']['id'])
